@@ -190,7 +190,7 @@ def run_check(pid, tier, seed):
     t0 = time.time()
     scratch = scratch_dir()
     crate = os.path.join(scratch, 'crate')
-    ev_path = os.path.join(VERIF, 'evidence', pid + '.json')
+    ev_path = os.path.join(os.environ.get('VERIF_EVIDENCE_DIR') or os.path.join(VERIF, 'evidence'), pid + '.json')
     os.makedirs(os.path.dirname(ev_path), exist_ok=True)
     if os.path.exists(ev_path):
         os.remove(ev_path)
